@@ -243,11 +243,14 @@ Definition is_pointer (c : ctx) (req def : bool) : bool :=
 (* recurseValidationCode: contexts used for array elements and for map keys / values *)
 Definition elem_ctx (c : ctx) (e : att) : ctx := if c_ptr c && is_prim e then set_ptr c false else c.
 (* map keys / values: primitives, arrays and maps are validated with Pointer = false; user
-   types (and inline objects) keep the context when the source says so (map_keeps_user_ctx,
-   extracted by the translator: the repaired recurseValidationCode), else everything loses it *)
+   types (and inline objects) keep the context, or only primitives lose it, as the source
+   says (map_ctx_mode, extracted by the translator from recurseValidationCode) *)
 Definition map_ctx (c : ctx) (a : att) : ctx :=
-  if map_keeps_user_ctx then match a with AUser _ | AObject _ => c | _ => set_ptr c false end
-  else set_ptr c false.
+  match map_ctx_mode with
+  | MapClearAll => set_ptr c false
+  | MapKeepUser => match a with AUser _ | AObject _ => c | _ => set_ptr c false end
+  | MapClearPrimOnly => match a with APrim _ _ _ | AAlias _ => set_ptr c false | _ => c end
+  end.
 
 (* generatedRequiredValidation: is the required test emitted for this attribute? *)
 Definition req_emitted (E : env) (c : ctx) (a : att) : bool :=
